@@ -62,6 +62,7 @@ func (s *Map[K, V]) Clear() {
 	h.flags.SetTrue(fullyLinked)
 	s.header = h
 	s.highestLevel = defaultHighestLevel
+	atomic.StoreInt64(&s.length, 0)
 }
 
 func (s *Map[K, V]) Values() []V {
